@@ -149,6 +149,12 @@ impl<A: Float> CostFunction for TweedieProblem<'_, A> {
         let (ypred, _, offset) = self.ypred(p);
 
         let dev = self.dist.deviance(self.y, ypred.view())?;
+        if dev.is_nan() {
+            // a NaN cost makes argmin's line search loop forever
+            return Err(argmin::core::Error::msg(
+                "deviance is NaN: the predicted mean left the domain of the distribution",
+            ));
+        }
 
         let pscaled = p
             .slice(s![offset..])
